@@ -12,6 +12,7 @@ pub mod c07;
 pub mod c08;
 pub mod c09;
 pub mod c10;
+pub mod c11;
 pub mod c12;
 pub mod c13;
 pub mod c14;
@@ -43,6 +44,7 @@ pub fn scenario(name: &str) -> Option<Scenario> {
         "c08_warmup" => c08::c08_warmup,
         "c09_system" => c09::c09_system,
         "c10_manager" => c10::c10_manager,
+        "c11_reload" => c11::c11_reload,
         "c12_flow" => c12::c12_flow,
         "c12_breaker" => c12::c12_breaker,
         "c12_hotspot" => c12::c12_hotspot,
